@@ -91,8 +91,10 @@ def compare(node, d, path="decl"):
                 return e
     if bool(node.func_const) != d.func_const:
         return "%s: func_const=%r, written %r" % (path, node.func_const, d.func_const)
-    want = dict((k, v) for k, v in d.attrs)
-    got = dict((k, v) for k, v in node.attrs.items() if not k.startswith("_") and v is not None)
+    # the value of  +rank=1  is recorded as the integer 1 and of  +rank(1)  as the text "1": the same attribute value
+    norm = lambda v: v if isinstance(v, bool) else str(v)
+    want = dict((at[0], norm(at[1])) for at in d.attrs)
+    got = dict((k, norm(v)) for k, v in node.attrs.items() if not k.startswith("_") and v is not None)
     if got != want:
         return "%s: attributes %r, written %r" % (path, got, want)
     if d.init is None:
@@ -104,12 +106,14 @@ def compare(node, d, path="decl"):
     return None
 
 
-def strip_lines(x):
-    """todict output without source line numbers."""
+def strip_lines(x, in_attrs=False):
+    """todict output without source line numbers; integer attribute values as text (+rank=1 and +rank(1) agree)."""
     if isinstance(x, dict):
-        return {k: strip_lines(v) for k, v in x.items() if k not in ("linenumber", "__line__")}
+        return {k: strip_lines(v, in_attrs or k == "attrs") for k, v in x.items() if k not in ("linenumber", "__line__")}
+    if in_attrs and isinstance(x, int) and not isinstance(x, bool):
+        return str(x)
     if isinstance(x, list):
-        return [strip_lines(v) for v in x]
+        return [strip_lines(v, in_attrs) for v in x]
     return x
 
 
